@@ -17,8 +17,7 @@ theorem invB_step_ready {w s l s'} (hwf : w.WF) (ha : InvA w s) (hb : InvB w s) 
       cases hbv : awaitReady x
       · -- not ready: SetCallback next
         simp only [doReady, Bool.false_eq_true, ↓reduceIte]
-        have hf : ∀ (q : Nat) (x : CbSt), s.st[q]? = some x → x = .todo :=
-          fun q x hq => hb.fresh (by rw [h]; rfl) x (mem_of_getElem? hq)
+        have hf := hb.fresh (by rw [h]; rfl)
         cases hb
         constructor <;> (try simp only [State.word] at *) <;>
           grind [inOp, decided, regPos, freshPc, afterRegPc]
@@ -56,12 +55,12 @@ theorem invB_step_ready {w s l s'} (hwf : w.WF) (ha : InvA w s) (hb : InvB w s) 
         simp only [doMReady, ↓reduceIte]
         have hnt := hb.no_todo (by rw [h]; rfl)
         have hle := hc.mrd_le 1 h
-        have hnp : CbSt.pending ∉ s.st := by
+        have hnp : ∀ (q : Nat), s.st[q]? ≠ some CbSt.pending := by
           cases ht : s.todo with
           | nil => exact absurd ht (ha.inop (by rw [h]; rfl))
           | cons op rest =>
               have := hc.multi_mid op rest ht (Or.inr (Or.inr ⟨1, h⟩))
-              exact not_mem_of_count_eq_zero (by omega)
+              exact forall_ne_of_count_eq_zero (by omega)
         have hno := no_cbs_of_no_pending ha hb hnp
         have hall : ∀ op rest j, s.todo = op :: rest → j ∈ op.cells → (s.word j).isResult = true := by
           intro op rest j ht hj
